@@ -848,6 +848,9 @@ impl Context {
                 frame = Some(f);
             }
             self.vm.frame_mut().environments.truncate(env_fp);
+            // Everything that was running is abandoned, including a `finally` block that still
+            // had an exception to rethrow: do not leave it behind for the next evaluation.
+            self.vm.pending_exception = None;
             if self.vm.frame().exit_early() {
                 // The Rust caller pops this frame without looking at the stack again:
                 // leave the stack as `handle_return` would.
